@@ -189,7 +189,14 @@ func c16GenTree(rng *vh.Rand) *c16Gen {
 	for j := 0; j < nx; j++ {
 		c := pick()
 		unc := rng.Bool()
-		switch rng.Intn(16) {
+		switch rng.Intn(17) {
+		case 16: // the all-zero id with an undecodable or empty object
+			z := strings.Repeat("0", 64)
+			if rng.Bool() {
+				g.add("0000/"+z+ext(unc), "f", []byte("garbage"), "zero-id")
+			} else {
+				g.add("0000/"+z+ext(unc), "f", nil, "zero-id")
+			}
 		case 0:
 			g.add("README", "f", []byte("junk"), "junk")
 		case 1:
